@@ -278,7 +278,7 @@ contract("_session:LDAPClient._process_incoming_message",
                   "self.state == (%s if (isinstance(msg, BindResponse) and msg.result.result_code != %s) else old(self.state))" % (OPENED, SASL),
                   "self._message_counter == old(self._message_counter)"] + CLIENT_INV,
          raises={"ProtocolError": _CLI_PIM_REJ},
-         on_raise=UNCHANGED_BOOK + ["self.state == old(self.state)"],
+         on_raise=UNCHANGED_BOOK + ["self.state == old(self.state)", "exc.response is None", "exc.request is None"],
          modifies=["self.state", "self._outstanding_requests", "self._search_requests"])
 
 _SRV_PIM_REJ = "(not isinstance(msg, Request) or (isinstance(msg, BindRequest) and old(self._outstanding_requests) != empty_set()))"
@@ -290,5 +290,58 @@ contract("_session:LDAPServer._process_incoming_message",
                   "self._search_requests == (set_add(old(self._search_requests), %s) if isinstance(msg, SearchRequest) else old(self._search_requests))" % _ID,
                   "self.state == (%s if isinstance(msg, BindRequest) else %s)" % (BINDING, OPENED_IF_FRESH)],
          raises={"ProtocolError": _SRV_PIM_REJ},
-         on_raise=UNCHANGED_BOOK + ["self.state == old(self.state)"],
+         on_raise=UNCHANGED_BOOK + ["self.state == old(self.state)", "exc.response is None", "exc.request is None"],
          modifies=["self.state", "self._outstanding_requests", "self._search_requests"])
+
+# ------------------------------------------------------------------------------------------------ receive (C02, C05, C06, C08)
+_S = "(old(self._incoming_buffer) + data)"          # everything delivered so far that has not been returned as messages
+_RECV_ENS = ["old(self.state) != %s" % CLOSED,
+             # C02 / C06: exactly the messages of the complete top-level TLVs, in order; only an incomplete TLV is held back
+             "result == msgs(%s, self._packing_options)" % _S,
+             "self._incoming_buffer == residue(%s)" % _S,
+             "self.state != %s" % CLOSED,
+             "self._outgoing_buffer == old(self._outgoing_buffer)"]
+_RECV_RAISE = {"*": ["self.state == %s" % CLOSED, "self._outgoing_buffer == old(self._outgoing_buffer)",
+                     # a CLOSED session accepts no data and keeps its bookkeeping
+                     "implies(old(self.state) == %s, self._incoming_buffer == old(self._incoming_buffer) and self._outstanding_requests == old(self._outstanding_requests))" % CLOSED,
+                     "implies(old(self.state) != %s, self._outstanding_requests == empty_set())" % CLOSED]}
+_RECV_RAISE_BASE = {"*": _RECV_RAISE["*"] + ["exc.response is None"]}
+_RECV_LOOP_A = dict(invariant=["msgs(self._incoming_buffer, self._packing_options) == cat_obj(incoming_msgs, msgs(reader._view, self._packing_options))",
+                               "residue(self._incoming_buffer) == residue(reader._view)"])
+_RECV_LOOP_B = dict(invariant=["msgs(data, self._packing_options) == cat_obj(incoming_msgs, msgs(reader._view, self._packing_options))",
+                               "residue(data) == residue(reader._view)",
+                               "len(self._incoming_buffer) == 0"])
+
+
+def _recv_loops(extra_inv):
+    return {0: _RECV_LOOP_A, 1: _RECV_LOOP_B,
+            2: dict(invariant=[VALID_STATE, "self.state != %s" % CLOSED, "self._outgoing_buffer == old(self._outgoing_buffer)"] + extra_inv)}
+
+
+contract("_session:LDAPServer/LDAPSession.receive",
+         params={"data": "bytes"},
+         requires=[VALID_STATE],
+         ensures=_RECV_ENS, raises={"ProtocolError": True}, on_raise=_RECV_RAISE_BASE, loops=_recv_loops([]),
+         modifies=["self.state", "self._incoming_buffer", "self._outstanding_requests", "self._search_requests"])
+contract("_session:LDAPClient/LDAPSession.receive",
+         params={"data": "bytes"},
+         requires=[VALID_STATE] + CLIENT_INV,
+         ensures=_RECV_ENS + CLIENT_INV + ["self._message_counter == old(self._message_counter)"],
+         raises={"ProtocolError": True}, on_raise=_RECV_RAISE_BASE, loops=_recv_loops(CLIENT_INV),
+         modifies=["self.state", "self._incoming_buffer", "self._outstanding_requests", "self._search_requests"])
+# C05: the bytes attached to the error are the encoding of a notice of disconnection (server) / an unbind request (client)
+_SRV_RESP = ("implies(exc.response is not None, exc.response == enc(msg, self._packing_options) and isinstance(msg, ExtendedResponse) "
+             "and msg.message_id == 0 and msg.name == %s.value and msg.result.result_code == LDAPResultCode.PROTOCOL_ERROR)" % NOTICE)
+_CLI_RESP = ("implies(exc.response is not None, exc.response == enc(msg, self._packing_options) and isinstance(msg, UnbindRequest) "
+             "and msg.message_id == 0)")
+contract("_session:LDAPServer.receive",
+         params={"data": "bytes"},
+         requires=[VALID_STATE],
+         ensures=_RECV_ENS, raises={"ProtocolError": True}, on_raise={"*": _RECV_RAISE["*"] + [_SRV_RESP]},
+         modifies=["self.state", "self._incoming_buffer", "self._outstanding_requests", "self._search_requests"])
+contract("_session:LDAPClient.receive",
+         params={"data": "bytes"},
+         requires=[VALID_STATE] + CLIENT_INV,
+         ensures=_RECV_ENS + CLIENT_INV + ["self._message_counter == old(self._message_counter)"],
+         raises={"ProtocolError": True}, on_raise={"*": _RECV_RAISE["*"] + [_CLI_RESP]},
+         modifies=["self.state", "self._incoming_buffer", "self._outstanding_requests", "self._search_requests"])
